@@ -85,6 +85,26 @@ def h_cd(a):
     return (lambda x, s=2: x * s)(a)
 
 
+def h_po(a, b, /):
+    return a - b
+
+
+def h_po2(a, /, b):
+    return a * 10 + b
+
+
+def h_ko(a, *, b):
+    return a * 10 + b
+
+
+def h_kod(a, *, b=4):
+    return a * 10 + b
+
+
+def h_kwi(a, b):
+    return (lambda a, b: a * 10 + b)(b=a, a=b)
+
+
 def h_th(a):
     return (lambda: 3)() + a
 
